@@ -182,8 +182,11 @@ class MarginRule(cssrule.CSSRule):
         ok, seq, store, unused = ProdParser().parse(cssText, 'MarginRule', prods)
 
         if ok:
-            # TODO: use seq for serializing instead of fixed stuff?
-            self._setSeq(seq)
+            # new style, set later so nothing is changed if it is refused
+            newStyle = CSSStyleDeclaration(parentRule=self)
+            if 'styletokens' in store:
+                # may raise:
+                newStyle.cssText = store['styletokens']
 
             if 'margin' in store:
                 # may raise:
@@ -194,12 +197,9 @@ class MarginRule(cssrule.CSSRule):
                     error=xml.dom.InvalidModificationErr,
                 )
 
-            # new empty style
-            self.style = CSSStyleDeclaration(parentRule=self)
-
-            if 'styletokens' in store:
-                # may raise:
-                self.style.cssText = store['styletokens']
+            # TODO: use seq for serializing instead of fixed stuff?
+            self._setSeq(seq)
+            self.style = newStyle
 
     cssText = property(
         fget=_getCssText,
